@@ -155,3 +155,70 @@ def check_header_bytes(b, region):
             return "entry data runs past the end of the data area"
         prev_end = off + ln
     return None
+
+
+def parse_header_entries(b):
+    """index of a written header: {tag: (type, offset, count)} and the store"""
+    n, sz = struct.unpack(">II", b[8:16])
+    ents = {}
+    for i in range(n):
+        t, ty, off, cnt = struct.unpack(">IIiI", b[16 + 16 * i:32 + 16 * i])
+        ents[t] = (ty, off, cnt)
+    return ents, b[16 + 16 * n:16 + 16 * n + sz], 16 + 16 * n + sz
+
+
+def header_strings(ents, st, t):
+    if t not in ents:
+        return []
+    ty, off, cnt = ents[t]
+    out, j = [], off
+    for _ in range(cnt):
+        k = st.index(b"\0", j)
+        out.append(st[j:k])
+        j = k + 1
+    return out
+
+
+def header_ints(ents, st, t):
+    if t not in ents:
+        return []
+    ty, off, cnt = ents[t]
+    w = {2: 1, 3: 2, 4: 4, 5: 8}[ty]
+    return [int.from_bytes(st[off + w * i:off + w * (i + 1)], "big") for i in range(cnt)]
+
+
+def check_cpio_bytes(payload, ents, st):
+    """the uncompressed payload is a well-formed newc archive whose entries are the header's files in header order; None or what is wrong"""
+    base, dirs = header_strings(ents, st, 1117), header_strings(ents, st, 1118)
+    didx, sizes, modes = header_ints(ents, st, 1116), header_ints(ents, st, 1028), header_ints(ents, st, 1030)
+    want = [(b"." + dirs[di] + bn, sz, md & 0xffff) for bn, di, sz, md in zip(base, didx, sizes, modes)]
+    pos, got, n = 0, [], len(payload)
+    while True:
+        if pos % 4:
+            return "entry at offset %d is not 4-byte aligned" % pos
+        head = payload[pos:pos + 110]
+        if len(head) < 110 or head[:6] != b"070701":
+            return "no newc entry header at offset %d" % pos
+        try:
+            f = [int(head[6 + 8 * i:14 + 8 * i], 16) for i in range(13)]
+        except ValueError:
+            return "non-hexadecimal header field at offset %d" % pos
+        mode, size, namesz = f[1], f[6], f[11]
+        nm = payload[pos + 110:pos + 110 + namesz]
+        if not nm or nm[-1] != 0 or b"\0" in nm[:-1]:
+            return "entry name at offset %d is not NUL-terminated within its recorded size %d" % (pos, namesz)
+        nm = nm[:-1]
+        pos += 110 + namesz
+        pos += (-pos) % 4
+        if nm == b"TRAILER!!!":
+            break
+        got.append((nm, size, mode & 0xffff))
+        pos += size
+        pos += (-pos) % 4
+        if pos > n:
+            return "entry data runs past the end of the payload"
+    if payload[pos:] != b"\0" * (n - pos):
+        return "bytes other than padding after the trailer"
+    if got != want:
+        return "entries %s do not match the header's files %s" % (got, want)
+    return None
